@@ -3,7 +3,7 @@ package limit_test
 import (
 	"context"
 	"fmt"
-		"sync"
+	"sync"
 	"testing"
 	"time"
 
@@ -96,12 +96,15 @@ func (b *c08Bucket) allow(sec, serverMs, n int64) bool {
 // ---- reference bucket in continuous caller time (the in-process side) ----
 //
 // Same rate and burst, full at the start; level in millitokens so that rate
-// tokens/s = rate millitokens/ms is exact in integers. Decisions within
-// c08Tol of the boundary are accepted either way (golang.org/x/time/rate
-// computes in float64 and rounds the per-token interval to whole nanoseconds)
-// and the model then follows the observed decision.
+// tokens/s = rate millitokens/ms is exact in integers (caller times are whole
+// milliseconds). level >= n must be granted. golang.org/x/time/rate rounds the
+// per-token interval DOWN to whole nanoseconds (its rate is >= ours by a
+// relative 2e-8 at most) and forgives a deficit worth less than 1 ns, so it may
+// grant a hair early: a request missing less than c08Tol may go either way
+// (the model then follows the observation); anything lower must be denied.
+// With integer levels the either-way zone is the single value n*1000-1.
 
-const c08Tol = 10 // millitokens
+const c08Tol = 1 // millitoken
 
 type c08Rescue struct {
 	rate, burst int64
@@ -128,7 +131,7 @@ func (r *c08Rescue) advance(nowMs int64) {
 func (r *c08Rescue) decide(nowMs, n int64) int {
 	r.advance(nowMs)
 	switch need := n * 1000; {
-	case r.level >= need+c08Tol:
+	case r.level >= need:
 		return 1
 	case r.level < need-c08Tol:
 		return -1
@@ -144,7 +147,7 @@ type c08Grant struct{ sec, n int64 }
 
 const (
 	c08RuleToken   = iota // no outage; caller-only / server-only clock steps
-	c08RuleOutage         // deterministic outages (drop / err), exact oracle
+	c08RuleOutage         // deterministic outages (error replies), exact oracle
 	c08RuleRestart        // real Close/Restart of the server, tolerant oracle
 )
 
@@ -593,7 +596,9 @@ func c08TokenGen(rt *rapid.T) c08TCase {
 // (limiter, outage) pairs: the redis wrapper's breaker (protection = 5
 // failures per 10 s window) can then never start rejecting commands by itself,
 // which would be an outage the generator did not ask for.
-func c08OutageGen(rt *rapid.T) c08TCase { return c08OutageGenModes(rt, []string{"loading", "err"}, true) }
+func c08OutageGen(rt *rapid.T) c08TCase {
+	return c08OutageGenModes(rt, []string{"loading", "err"}, true)
+}
 
 func c08OutageGenModes(rt *rapid.T, modes []string, concurrent bool) c08TCase {
 	c := c08TCase{Lims: c08GenLims(rt, 3)}
